@@ -20,8 +20,10 @@ F_TAIL = "c18-trailing-comment-hides-return"
 F_CRASH = "c18-annotation-masks-compiler-crash"
 CRASHES = ("AssertionError", "RecursionError")
 
-OPTS_QUICK = [(2, True, None, None), (3, False, None, None), (5, True, None, None), (6, True, True, None),
-              (8, True, None, None), (8, True, None, False), (10, True, None, None), (10, True, False, None)]
+# (version, application mode, scratch_slots, frame_pointers, assembleConstants)
+OPTS_QUICK = [(2, True, None, None, False), (3, False, None, None, False), (5, True, None, None, False), (6, True, True, None, False),
+              (8, True, None, None, False), (8, True, None, False, False), (10, True, None, None, False), (10, True, False, None, False),
+              (6, True, None, None, True), (10, True, None, None, True), (3, False, None, None, True)]
 
 
 def opts_thorough():
@@ -30,12 +32,15 @@ def opts_thorough():
         for app in (True, False):
             for ss in (None, True, False):
                 for fp in ((None, False, True) if v >= 8 else (None, False)):
-                    out.append((v, app, ss, fp))
+                    out.append((v, app, ss, fp, False))
+            if v >= 3:
+                out.append((v, app, None, None, True))
+                out.append((v, app, True, None, True))
     return out
 
 
 def optimizer_on(opt):
-    v, _, ss, _ = opt
+    v, ss = opt[0], opt[2]
     return ss is True or (ss is None and v >= 9)
 
 
@@ -101,7 +106,7 @@ def recipe_has_return(r):
 
 
 def compile_prog(pt, m18, prog, opt, want_model=True):
-    v, app, ss, fp = opt
+    v, app, ss, fp, ac = opt
     b = G.ABuilder(pt)
     res = {"opt": opt}
     try:
@@ -115,9 +120,9 @@ def compile_prog(pt, m18, prog, opt, want_model=True):
         res["real"] = ("build-exc", r[1], r[2])
         return res
     expr = r[1]
-    res["real"] = call_real(lambda: pt.compileTeal(expr, mode_of(pt, app), version=v, optimize=optimize_of(pt, ss, fp)))
+    res["real"] = call_real(lambda: pt.compileTeal(expr, mode_of(pt, app), version=v, optimize=optimize_of(pt, ss, fp), assembleConstants=ac))
     res["names"] = {k: b.subs[k]["name"] for k in b.sub_defs}
-    if want_model and prog.wirable():
+    if want_model and prog.wirable() and not ac:       # createConstantBlocks is C12's model, not part of compile_model
         try:
             wp = b.wire_prog(prog.main, b.wire_subs())
             res["model"] = m18.ask("(compile %s %s)" % (wire_opts(v, app, ss, fp), wp))
@@ -161,20 +166,30 @@ def statements(m18, teal):
     return [tuple(x) for x in r[1:]]
 
 
-def strip_nonce(teal, lit):
+def is_nonce_push(line, lit, val):
+    """`byte LIT`, or with assembleConstants `pushbytes 0xHEX // LIT` (the trailing echo is a comment)"""
+    if line == "byte " + lit:
+        return True
+    if val is not None:
+        head = "pushbytes 0x" + val.hex()
+        return line == head or line.startswith(head + " //")
+    return False
+
+
+def strip_nonce(teal, lit, val=None):
     """remove the documented push-and-pop of the nonce bytes (first occurrence)"""
     lines = teal.split("\n")
     for i in range(len(lines) - 1):
-        if lines[i] == "byte " + lit and lines[i + 1] == "pop":
+        if is_nonce_push(lines[i], lit, val) and lines[i + 1] == "pop":
             return "\n".join(lines[:i] + lines[i + 2:]), True
     return teal, False
 
 
-def mark_nonce(teal, lit):
+def mark_nonce(teal, lit, val=None):
     """turn the nonce pair into comment lines (for the annotation-only-block predicate)"""
     lines = teal.split("\n")
     for i in range(len(lines) - 1):
-        if lines[i] == "byte " + lit and lines[i + 1] == "pop":
+        if is_nonce_push(lines[i], lit, val) and lines[i + 1] == "pop":
             return "\n".join(lines[:i] + ["// nonce", "// pop"] + lines[i + 2:])
     return teal
 
@@ -242,7 +257,7 @@ class Oracle:
             d.update(extra)
         self.violations.append((what, d))
 
-    def pair(self, prog, variant, opt, desc, kind, nonce_lit=None, force_run=False, may_be_invalid=False):
+    def pair(self, prog, variant, opt, desc, kind, nonce_lit=None, force_run=False, may_be_invalid=False, nonce_val=None):
         """compare the real outputs of prog and variant under opt"""
         ck = self.ck
         p = self.plain(prog, opt)
@@ -287,12 +302,19 @@ class Oracle:
         tp, tq = pr[1], qr[1]
         tq_cmp = tq
         if nonce_lit is not None:
-            tq_cmp, found = strip_nonce(tq, nonce_lit)
+            tq_cmp, found = strip_nonce(tq, nonce_lit, nonce_val if opt[4] else None)
             if not found:
                 if stream(self.m18, tp) == stream(self.m18, tq):
                     self.bump("nonce-in-unreachable-code")      # the wrapped expression is never emitted (after Break/Continue/Return)
                     return
-                self.violation("Nonce did not emit the documented `byte %s; pop` pair" % nonce_lit, prog, variant, opt)
+                for ctx, (a, b) in behaviours(self.avm, ck.rng, opt[1], [tp, tq], self.nctx):
+                    ck.count(("run", prog.key(), variant.key(), opt, sx(ctx)))
+                    if a is not None and b is not None and a != b:
+                        self.violation("BEHAVIOUR differs between a program and its Nonce-wrapped variant (%s): %s vs %s" % (desc, a, b), prog, variant, opt,
+                                       {"ctx": sx(ctx), "plain_teal": tp.split("\n"), "variant_teal": tq.split("\n")})
+                        return
+                self.violation("Nonce did not emit the documented push (`byte %s`) immediately followed by `pop` (%s)" % (nonce_lit, desc), prog, variant, opt,
+                               {"plain_teal": tp.split("\n"), "variant_teal": tq.split("\n")})
                 return
         sp, sq = stream(self.m18, tp), stream(self.m18, tq_cmp)
         same = sp == sq
@@ -325,7 +347,7 @@ class Oracle:
                 return
         stp, stq = statements(self.m18, tp), statements(self.m18, tq_cmp)
         layout_only = G.cfg_canon(stp) == G.cfg_canon(stq)
-        marked = mark_nonce(tq, nonce_lit) if nonce_lit is not None else tq
+        marked = mark_nonce(tq, nonce_lit, nonce_val if opt[4] else None) if nonce_lit is not None else tq
         if layout_only and tail:
             self.bump("known:tail-dead-retsub")
             if self.known(F_TAIL, "a stand-alone Comment after the final Return/Approve of the main routine makes compilation fail (TealCompileError) — and in a subroutine appends a dead retsub"):
@@ -336,13 +358,13 @@ class Oracle:
                 return
         if optimizer_on(opt) and G.has_store_comment_load(marked):
             # confirm the class: with the slot optimiser off the two streams must agree (up to layout)
-            off = (opt[0], opt[1], False, opt[3])
+            off = (opt[0], opt[1], False, opt[3], opt[4])
             p2 = self.plain(prog, off)
             q2 = compile_prog(self.pt, self.m18, variant, off, want_model=False)
             if p2["real"][0] == "ok" and q2["real"][0] == "ok":
                 t2 = q2["real"][1]
                 if nonce_lit is not None:
-                    t2, _ = strip_nonce(t2, nonce_lit)
+                    t2, _ = strip_nonce(t2, nonce_lit, nonce_val if opt[4] else None)
                 a2, b2 = statements(self.m18, p2["real"][1]), statements(self.m18, t2)
                 if stream(self.m18, p2["real"][1]) == stream(self.m18, t2) or G.cfg_canon(a2) == G.cfg_canon(b2):
                     self.bump("known:optimizer")
@@ -522,9 +544,10 @@ def main(argv):
             for j in range(k):
                 opt = opts_all[(vi * k + j + bi) % len(opts_all)]
                 if prog.subs and opt[0] < 4:
-                    opt = (6, opt[1], opt[2], opt[3])
+                    opt = (6, opt[1], opt[2], opt[3], opt[4])
                 lit = G.ABuilder(pt).nonce_lit(nb[0], nb[1]) if nb else None
-                orc.pair(prog, var, opt, "%s: %s" % (name, desc), kind, nonce_lit=lit, force_run=(vi + j) % 5 == 0, may_be_invalid=(role == "seq.after-last"))
+                orc.pair(prog, var, opt, "%s: %s" % (name, desc), kind, nonce_lit=lit, force_run=(vi + j) % 5 == 0, may_be_invalid=(role == "seq.after-last"),
+                         nonce_val=G.nonce_value(nb[0], nb[1]) if nb else None)
                 nvar += 1
     # directed: the three stream-changing classes under every option set (so that every KNOWN class is exercised where it applies)
     bd = dict(bases)
@@ -540,6 +563,35 @@ def main(argv):
             orc.pair(p, p.with_unit("f", G.apply_insert(body, (), len(body), "done")), opt, "directed: Comment('done') after Return() in a subroutine", "comment-stmt", force_run=True)
         p = Prog(("seq", G.POP1, G.APPROVE))
         orc.pair(p, Prog(G.apply_insert(p.main, (), 3, "end")), opt, "directed: Comment('end') after Approve() in main", "comment-stmt")
+    # Nonce with every hazard text (utf8) and the other bases, at the top of a few bases, with and without assembleConstants:
+    # whatever the text and the options, a Nonce adds the push-and-pop pair and nothing else
+    nonce_bases = [bd["if-else"], bd["store-load-2"], bd["sub-uint"]]
+    nonce_opts = [(6, True, None, None, True), (10, True, None, None, True), (8, True, None, None, False), (3, False, None, None, True)] if not thorough else \
+        [o for o in opts_all if o[0] >= 3 and (o[4] or (o[2] is None and o[3] is None))]
+    ncase = 0
+    for ti, t in enumerate(texts):
+        nb = ("utf8", "N18:" + t)
+        r = call_real(G.ABuilder(pt).nonce_lit, nb[0], nb[1])
+        if r[0] != "ok":
+            orc.bump("nonce-text-rejected:" + r[1])          # e.g. a text Bytes() itself refuses
+            continue
+        for j in range(2 if not thorough else len(nonce_opts)):
+            p = nonce_bases[(ti + j) % len(nonce_bases)]
+            opt = nonce_opts[(ti + j) % len(nonce_opts)]
+            if p.subs and opt[0] < 4:
+                opt = (6,) + opt[1:]
+            var = Prog(G.apply_wrap(p.main, (), "nonce", None, nb), p.subs)
+            orc.pair(p, var, opt, "Nonce(utf8, 'N18:'+%r, .) at the top" % t[:30], "nonce", nonce_lit=r[1], force_run=True, nonce_val=G.nonce_value(*nb))
+            ncase += 1
+    for k, nb in enumerate([("base16", "0xA1b2C3"), ("base16", "a1B2"), ("base32", "MNXW45DFNZ2A===="), ("base32", "MNXW45DFNZ2A"), ("base64", "Y29udGVudA=="), ("base64", "//8=")]):
+        for opt in nonce_opts:
+            p = nonce_bases[k % len(nonce_bases)]
+            if p.subs and opt[0] < 4:
+                opt = (6,) + opt[1:]
+            var = Prog(G.apply_wrap(p.main, (), "nonce", None, nb), p.subs)
+            orc.pair(p, var, opt, "Nonce(%s, %r, .) at the top" % nb, "nonce", nonce_lit=G.ABuilder(pt).nonce_lit(*nb), force_run=True, nonce_val=G.nonce_value(*nb))
+            ncase += 1
+    ck.coverage["nonce_text_cases"] = ncase
     # random programs (main routine only), sampled insertion points, stacked annotations
     nrand = 400 if thorough else 40
     hist = {}
@@ -553,11 +605,12 @@ def main(argv):
         for k_, v_ in g.hist.items():
             hist[k_] = hist.get(k_, 0) + v_
         prog = Prog(r)
-        opt = (version, app, ss, fp)
+        opt = (version, app, ss, fp, version >= 3 and rng.random() < 0.25)
         for (var, desc, kind, nb, role) in variants_of(prog, rng, pragmas, rng.sample(texts, 12), dense=False):
             roles[role] = roles.get(role, 0) + 1
             lit = G.ABuilder(pt).nonce_lit(nb[0], nb[1]) if nb else None
-            orc.pair(prog, var, opt, "random#%d: %s" % (i, desc), kind, nonce_lit=lit, force_run=rng.random() < 0.15, may_be_invalid=(role == "seq.after-last"))
+            orc.pair(prog, var, opt, "random#%d: %s" % (i, desc), kind, nonce_lit=lit, force_run=rng.random() < 0.15, may_be_invalid=(role == "seq.after-last"),
+                     nonce_val=G.nonce_value(nb[0], nb[1]) if nb else None)
         for _ in range(2):
             var = stacked_variant(prog, rng, pragmas, texts, rng.choice([2, 3, 5]))
             orc.pair(prog, var, opt, "random#%d: stacked annotations" % i, "stacked", force_run=rng.random() < 0.3)
@@ -567,7 +620,7 @@ def main(argv):
     # ---- subroutine names ----
     name_bad = []
     sub_bases = [(n, p) for (n, p) in bases if p.subs]
-    names = list(G.NAMES)
+    names = list(G.NAMES) + (G.LONG_NAMES if thorough else G.LONG_NAMES_QUICK)
     for bi, (name, prog) in enumerate(sub_bases):
         opts = [o for o in opts_all if o[0] >= 4]
         for ni, nm in enumerate(names):
@@ -578,7 +631,7 @@ def main(argv):
                 orc.pair(prog, var, opt, "%s: subroutine %s renamed to %r" % (name, key, nm[:40]), "rename", force_run=True)
             # the model's label/header functions against the real output
             if G.latin1(nm) and nm != "" and len(prog.subs) == 1:
-                q = compile_prog(pt, m18, var, (6, True, None, None), want_model=False)
+                q = compile_prog(pt, m18, var, (6, True, None, None, False), want_model=False)
                 if q["real"][0] == "ok":
                     resp = m18.ask((S("sublabel"), nm, 0))
                     ck.count(("sublabel", nm))
@@ -689,6 +742,7 @@ def replay(path):
     m18 = Model("c18")
     avm = Model("main")
     prog, var, opt = Prog.from_desc(data["plain"]), Prog.from_desc(data["variant"]), tuple(data["opt"])
+    opt = opt + (False,) * (5 - len(opt))
     p = compile_prog(pt, m18, prog, opt)
     q = compile_prog(pt, m18, var, opt)
     print("plain    :", p["real"][0], "" if p["real"][0] != "ok" else "\n" + p["real"][1])
